@@ -46,10 +46,40 @@ def seeded_table():
     return "\n".join(rows)
 
 
+def seeded_summary():
+    from collections import Counter
+    per = {}
+    for d in sorted((ROOT / "seeded").glob("*/meta.json")):
+        meta = json.loads(d.read_text())
+        res = meta.get("verif_result", {})
+        rnd = meta.get("round", "?")
+        c = per.setdefault(rnd, Counter())
+        c["kept"] += 1
+        if res.get("check_rc") == 1 and res.get("replay_kind") == "correspondence-broken":
+            c["nofail"] += 1
+        elif res.get("check_rc") == 1:
+            c["spec"] += 1
+        elif res.get("superseded"):
+            c["superseded"] += 1
+        elif any(a.get("check_rc") == 1 for a in (res.get("also") or {}).values()):
+            c["other"] += 1
+        else:
+            c["missed"] += 1
+    rows = ["| round | kept | VIOLATION with a failing input (Spec violated) | VIOLATION no-failing-input-found | caught only by another property's check | superseded by a /repo fix | missed |",
+            "|---|---|---|---|---|---|---|"]
+    tot = Counter()
+    for rnd in sorted(per):
+        c = per[rnd]
+        tot.update(c)
+        rows.append(f"| {rnd} | {c['kept']} | {c['spec']} | {c['nofail']} | {c['other']} | {c['superseded']} | {c['missed']} |")
+    rows.append(f"| all | {tot['kept']} | {tot['spec']} | {tot['nofail']} | {tot['other']} | {tot['superseded']} | {tot['missed']} |")
+    return "\n".join(rows)
+
+
 def main():
     p = ROOT / "DESIGN.md"
     s = p.read_text()
-    for marker, body in (("BUILD-TABLE", build_table()), ("SEEDED-TABLE", seeded_table())):
+    for marker, body in (("BUILD-TABLE", build_table()), ("SEEDED-SUMMARY", seeded_summary()), ("SEEDED-TABLE", seeded_table())):
         pat = re.compile(rf"<!-- {marker} -->.*?(<!-- /{marker} -->|(?=\n\n))", re.S)
         s = pat.sub(lambda m: f"<!-- {marker} -->\n{body}\n<!-- /{marker} -->", s, count=1)
     p.write_text(s)
